@@ -268,9 +268,21 @@ func (l *fileBasedLoader) instantiate(c px.Context, smartPath SmartPath, name px
 	if l.GetEntry(name) == nil {
 		// Make absolutely sure that we don't recurse into instantiate again
 		l.SetEntry(name, px.NewLoaderEntry(nil, nil))
-		smartPath.Instantiator()(c, l, name, origins)
+		// Names are resolved by the loader of the calling context but what the file defines belongs to this loader
+		c.DoWithLoader(&instantiationLoader{c.Loader(), l}, func() { smartPath.Instantiator()(c, l, name, origins) })
 	}
 	return l.GetEntry(rn)
+}
+
+// instantiationLoader is the loader of the context during an instantiation. It makes the definitions end up in the
+// file based loader (and not in whatever defining loader the calling context happens to have).
+type instantiationLoader struct {
+	px.Loader
+	definer *fileBasedLoader
+}
+
+func (il *instantiationLoader) SetEntry(name px.TypedName, entry px.LoaderEntry) px.LoaderEntry {
+	return il.definer.SetEntry(name, entry)
 }
 
 func (l *fileBasedLoader) Discover(c px.Context, predicate func(px.TypedName) bool) []px.TypedName {
